@@ -327,8 +327,15 @@ def run(tier, only=None):
         r = by_id[v["id"]]
         case = r["case"]
         det = _decode(case, v["pass"], v["w"])
+        groups = None
         if v["v"] == "SameOrder":
-            det["moved"] = _moved_items(case, v["pass"])[:40]
+            # SameOrder is a statement per scope: the displaced items are judged
+            # scope by scope (one module can show two independent re-orderings)
+            moved = _moved_items(case, v["pass"])
+            det["moved"] = moved[:40]
+            scopes = list(dict.fromkeys(it["s"] for it in moved))
+            if len(scopes) > 1:
+                groups = [[it for it in moved if it["s"] == sc][:40] for sc in scopes]
         if r["texts"] and not det["src_pass"] and v["v"] != "Reread":
             k = v["pass"] - (1 if case["src"] else 0)
             if 1 <= k < len(r["texts"]):
@@ -341,7 +348,12 @@ def run(tier, only=None):
         if r["texts"]:
             slim["w1"] = r["texts"][0][:4000]
         failing[v["id"]] = failing.get(v["id"], 0) + 1
-        out.violation(slim, v["v"], det)
+        if groups:
+            for grp in groups:
+                out.violation(dict(slim, scope=grp[0]["s"]), v["v"],
+                              dict(det, moved=grp, item=grp[0], scopes_displaced=len(groups)))
+        else:
+            out.violation(slim, v["v"], det)
     unstable = [r["id"] for r in ok if not all(r["case"]["eq"]) or r["case"]["fail"]]
     missed = [i for i in unstable if i not in failing and i != corrupted]
     if missed:
